@@ -39,8 +39,8 @@ def check(run, prog, tier):
     run.rule("C07-A", "tensor action equals operator action (TA)", minimum=4)
     run.rule("C07-B", "conversion between forms is typestate-correct", minimum=5)
     run.rule("C07-C", "both forms transform by the same covariant law", minimum=8)
-    run.rule("C07-D", "time-dependent and time-independent integrands are the same expression",
-             minimum=3)
+    run.rule("C07-D", "time-dependent and time-independent integrands and integration windows are the same",
+             minimum=5)
     rule_A(run, prog)
     rule_B(run, prog)
     rule_C(run, prog)
@@ -246,6 +246,25 @@ def rule_D(run, prog):
                    message="the integrand/antiderivative pipelines of the time-dependent and the "
                            "time-independent Redfield tensors differ: %s vs %s" % (n2[:-1], n1[:-1]),
                    loc=td.loc(), sample={"pipeline": n1[:-1]})
+    # the two implementations integrate over the same window of the time axis, with and without a
+    # cut-off time: the time-dependent tensor at its last index can equal the time-independent one
+    # only if "up to the cut-off" means the same number of points in both
+    tiimp = prog.func(RED + "._implementation")
+
+    def window(func):
+        for n in walk_no_nested(func.node):
+            if isinstance(n, ast.If) and norm(n.test) == "self._has_cutoff_time":
+                def asg(body):
+                    return {norm(s_.targets[0]): norm(s_.value) for s_ in body if isinstance(s_, ast.Assign)}
+                return asg(n.body), asg(n.orelse)
+        raise AnalysisError("%s: cut-off branch not found" % func.short)
+    w1, w2 = window(tiimp), window(td)
+    for k, label in ((0, "with cut-off"), (1, "without cut-off")):
+        ok = w1[k] == w2[k] and len(w1[k]) >= 2
+        run.obligation(rid, "TD vs TI integration window", ok, key="window:" + label.replace(" ", "-"),
+                       message="the time-independent and the time-dependent Redfield tensor integrate over different "
+                               "windows %s: %s vs %s" % (label, w1[k], w2[k]), loc=td.loc(),
+                       sample={"window": w1[k], "case": label})
     # last statement: TI takes element length-1 of what TD keeps whole
     last1, last2 = a1[-1], a2[-1]
     carried = set(m2.values())
